@@ -79,6 +79,19 @@ class IgnoreDirectiveParser:
         self._ignore_cache[path_str] = result
         return result
 
+    def use_config_ignores(self, config: dict | None) -> None:
+        """Take the top-level ignore list from the configuration the run actually uses.
+
+        The configuration may come from .thailint.json, pyproject.toml or --config, not only
+        from .thailint.yaml. A .thailintignore file keeps its precedence.
+        """
+        if (self.project_root / ".thailintignore").exists():
+            return
+        patterns = _extract_ignore_patterns(config)
+        if patterns != self.repo_patterns:
+            self.repo_patterns = patterns
+            self._ignore_cache.clear()
+
     def has_file_ignore(self, file_path: Path, rule_id: str | None = None) -> bool:
         """Check for file-level ignore directive in first 10 lines."""
         first_lines = _read_file_first_lines(file_path)
